@@ -2,6 +2,7 @@ package main
 
 import (
 	"fmt"
+	"os"
 	"strings"
 	"time"
 
@@ -49,6 +50,12 @@ type c05world struct {
 
 func (w *c05world) disturb(d string, c c05cfg) {
 	a, b := w.a, w.b
+	if os.Getenv("VERIF_DEBUG") != "" {
+		fmt.Printf("DEBUG t=%v before %s: regA=%d regB=%d open=%d links=%d\n", simrt.Elapsed(), d, len(registry(a)), len(registry(b)), openLinks(), len(fakews.Links()))
+		for i, l := range fakews.Links() {
+			fmt.Printf("DEBUG  link %d clientSKI=%s port=%s clientClosed=%v serverClosed=%v\n", i, l.ClientSKI[:4], l.ServerPort, l.Client.IsClosed(), l.Server.IsClosed())
+		}
+	}
 	switch d {
 	case "discA":
 		a.Hub.DisconnectSKI(b.SKI, "user")
@@ -268,7 +275,7 @@ func c05Scenarios(r *hx.Run) []hx.Scenario {
 				}
 			}
 		} else {
-			for _, p := range [][2]string{{"discA", "discB"}, {"cut", "discA"}, {"restartA", "cut"}, {"discB", "restartB"}} {
+			for _, p := range [][2]string{{"discA", "discB"}, {"cut", "discA"}, {"restartA", "cut"}, {"discB", "restartB"}, {"cut", "restartB"}, {"cut", "restartA"}} {
 				cfgs = append(cfgs, c05cfg{swap: swap, order: "A-first", reg: "before", dist: []string{p[0], p[1]}})
 			}
 		}
